@@ -212,10 +212,11 @@ def rand_time(rng, cfg):
 def rand_reward(rng, cfg, allow_bc=True):
     names = conv.cfg_names(cfg)
     n = sum(cfg['n'].values())
-    base = [('th',), ('tbl',), ('tth',), ('deme', rng.choice(names)), ('lin', rng.randint(2, max(2, n)))]
+    base = [('th',), ('tbl',), ('tth',), ('deme', rng.choice(names)), ('lin', rng.randint(2, max(2, n))),
+            ('custom', rng.randint(2, max(2, n)))]
     if cfg.get('loci', 1) == 2:
         base += [('locus', rng.randrange(2)), ('tblloc', rng.randrange(2))]
-        base = [b for b in base if b[0] != 'lin']
+        base = [b for b in base if b[0] not in ('lin', 'custom')]
     if allow_bc and cfg.get('loci', 1) == 1:
         base += [('sfs', rng.randint(1, n - 1)), ('fsfs', rng.randint(1, max(1, n // 2)))]
     r = rng.choice(base)
@@ -249,6 +250,8 @@ def rand_query(rng, cfg, quick, light=False):
         (5, lambda: (lambda k: ('moment', k, [rand_reward(rng, cfg) for _ in range(k)], rng.choice([None, T(), T()]),
                                 rng.random() < 0.7))(rng.choice([1, 1, 1, 2, 2] + ([] if quick else [3])))),
         (2, lambda: ('th.moment', rng.choice([1, 2]), T(), rng.random() < 0.5)),
+        # user-defined rewards from one factory, same order / horizon / flags: only the function differs
+        (2 if loci == 1 else 0, lambda: ('moment', 1, [('custom', rng.randint(2, max(2, n)))], None, True)),
         (1, lambda: ('tbl.moment', rng.choice([1, 2]), T(), rng.random() < 0.5)),
         (2, lambda: ('accumulate', 1, [rand_reward(rng, cfg)], ts())),
         (3, lambda: ('th.deme.mean', rng.choice(names))), (1, lambda: ('tbl.deme.mean', rng.choice(names))),
